@@ -16,6 +16,7 @@
      1292 the model's totals differ from totals_from_knowledge
      1294 the case does not satisfy the hypotheses of recover_totals (distinct ids/keys, acceptable resources, admissible
           order, totals within int64) - the harness built an inadmissible replay
+     1210 an application's set of allocations or of unbound asks in B differs from A's, or a recovered allocation is missing from B's requests map
      1250 crash point inside the window of finding 12 (a foreign allocation re-sent with another node id is listed on
           two nodes of A; the replay reproduces the orphan on B) - nothing else is evaluated for the case
    The comparison with A (1202-1205) is made when A's own books agree (hypothesis books_agree of recover_matches_old:
@@ -90,6 +91,20 @@ Definition same_apps (A B : ostate) (recq : N) : list N :=
                                               (ap_user b =? ap_user a)) 1206
                             end) (s_apps A)).
 
+(* same asks and allocations, by key *)
+Definition same_keys (a b : list N) : bool := forallb (fun x => memN x b) a && forallb (fun x => memN x a) b.
+Definition same_items (A B : ostate) : list N :=
+  dedup (flat_map (fun a => match find_app B (ap_id a) with
+                            | None => []
+                            | Some b =>
+                                let unbound x := filter (fun k => negb (memN k (map oa_key (ap_allocs x)))) (map oa_key (ap_requests x)) in
+                                (* same allocations, same unbound asks, and every recovered allocation is also in B's requests
+                                   map (RecoverAllocationAsk) *)
+                                flag (same_keys (map oa_key (ap_allocs a)) (map oa_key (ap_allocs b)) &&
+                                      same_keys (unbound a) (unbound b) &&
+                                      forallb (fun k => memN k (map oa_key (ap_requests b))) (map oa_key (ap_allocs b))) 1210
+                            end) (s_apps A)).
+
 Definition model_check (A B : ostate) (steps : list ostep) : list N :=
   let K := shim_knowledge A in
   match rops_of K steps with
@@ -149,7 +164,7 @@ Definition c12_check_case (h : N) (c : rccase) : list (N * N) :=
   if dup_foreign A then [(h * 1000 + 499, 1250)] else
   replay_steps (h * 1000) (h_steps (rc_replay c)) ++
   map (fun k => (h * 1000 + 499, k))
-      ((if books_ok A then same_totals A B else []) ++ same_apps A B (rc_recq c) ++
+      ((if books_ok A then same_totals A B else []) ++ same_apps A B (rc_recq c) ++ same_items A B ++
        flag (books_ok B) 1207 ++ model_check A B (h_steps (rc_replay c))) ++
   cont_steps (h * 1000 + 500) (h_steps (rc_cont c)).
 
